@@ -176,3 +176,15 @@ CHECKS["C05"] = {
         {"pkg": COMMON, "run": "^TestVerif_C05_Oversize$", "checks": {"quick": 300, "thorough": 20000}, "shards": {"thorough": 4}},
     ],
 }
+
+CHECKS["C06"] = {
+    "level": "exploration",
+    "technique": "rapid-generated client configurations; one real handshake per case (client Transport.Handshake <-> server dispatchConnection, direct and through a TLS-terminating CDN shim) in a synctest bubble; oracle = independent re-authentication of the tapped first packet + key equality",
+    "level_text": "For each generated (UID, proxy method 1..12 bytes, encryption method, session id incl. 0/2^31/2^32-1, ordered/unordered, browser signature, transport, server name incl. 'random', client clock offset inside the window) the client's returned key must equal the key of the session the server filed under exactly that UID and session id, and an independent server state must recover exactly the configured identity fields from the tapped first packet.",
+    "level_note": "Clock offsets are generated with |offset| <= 178.999 s so that the truncation of the timestamp to whole seconds never reaches the window edge (edges belong to C07). The CDN is emulated by a crypto/tls terminator with a self-signed certificate.",
+    "rule": "rapid draws the configuration tuple; every case is a full handshake (non-trivial); distinct = distinct (browser, transport, enc, flag, sid class, name class, method length) tuples.",
+    "assumptions": ["utls builds ClientHellos as the real client does", "crypto/tls and gorilla/websocket are correct"],
+    "jobs": [
+        {"pkg": SERVER, "run": "^TestVerif_C06_Handshake$", "checks": {"quick": 1000, "thorough": 100000}, "shards": {"thorough": 16}, "timeout": {"quick": 600}},
+    ],
+}
